@@ -125,9 +125,19 @@ pub fn two_bytes(v: &Vec<u8>, a: usize) -> (r: [u8; 2])
 #[verifier::external_body]
 pub fn u16_from_be_bytes(b: [u8; 2]) -> (r: u16) ensures r as int == u16_of_be(b[0], b[1]) { u16::from_be_bytes(b) }
 
-// C06: the documented truthiness table as one (uninterpreted for containers) spec function; the scalar rows are
-// proved on the real Object::is_falsey by the ops harness c06_is_falsey_scalars
-pub uninterp spec fn is_falsey_spec(o: Object) -> bool;
+// C06: the documented truthiness table as a spec function; Object::is_falsey is verified against it below (all rows, containers
+// of every length) and the scalar rows again on the compiled code by the ops harness c06_is_falsey_scalars
+pub open spec fn is_falsey_spec(o: Object) -> bool {
+    match o {
+        Object::Bool(b) => !b, Object::Integer(n) => n == 0, Object::Null => true, Object::Float(v) => f64_zero(v), Object::Char(c) => c == '\0', Object::Byte(b) => b == 0,
+        Object::Str(s) => s@.len() == 0, Object::Arr(a) => a@.len() == 0, Object::Map(m) => m.count() == 0,
+        _ => false,
+    }
+}
+impl HMap { pub uninterp spec fn count(&self) -> nat; }
+#[verifier::external_body] pub fn string_is_empty(s: &String) -> (r: bool) ensures r == (s@.len() == 0) { s.is_empty() }
+#[verifier::external_body] pub fn array_is_empty(a: &Rc<Array>) -> (r: bool) ensures r == (a@.len() == 0) { unimplemented!() }
+#[verifier::external_body] pub fn hmap_is_empty(m: &Rc<HMap>) -> (r: bool) ensures r == (m.count() == 0) { unimplemented!() }
 #[verifier::external_body]
 pub fn obj_is_falsey(o: &Object) -> (r: bool) ensures r == is_falsey_spec(*o) { unimplemented!() }
 
